@@ -52,7 +52,7 @@ fn configs(thorough: bool) -> Vec<Cfg> {
     let streams: Vec<(u8, u8, u8)> = if thorough {
         vec![(0, 0, 0), (1, 1, 1), (1, 0, 0), (0, 1, 0), (0, 0, 1), (2, 2, 2), (0, 1, 3), (0, 3, 1), (1, 2, 1), (2, 1, 0), (0, 3, 0), (0, 0, 3), (1, 1, 3)]
     } else {
-        vec![(0, 0, 0), (1, 1, 1), (0, 1, 3), (2, 2, 2), (1, 0, 0)]
+        vec![(0, 0, 0), (1, 1, 1), (0, 1, 3), (2, 2, 2), (1, 0, 0), (0, 3, 0), (0, 0, 3)]
     };
     for (a, b, c) in &streams {
         for det in [false, true] {
